@@ -21,7 +21,11 @@ impl<'a, V> GenericLibraryFactory<'a, V> {
         char_stream: impl Iterator<Item = char>,
     ) -> Result<Self, SchemeError> {
         let lexer = Lexer::from_char_stream(char_stream);
-        let parser = Parser::from_lexer(lexer);
+        let mut parser = Parser::from_lexer(lexer);
+        // macros defined inside a library source stay local to it
+        parser.syntax_env = std::rc::Rc::new(crate::environment::LexicalScope::new_child(
+            parser.syntax_env.clone(),
+        ));
         for statement in parser {
             if let Statement::LibraryDefinition(library_definition) = statement? {
                 if &library_definition.0 == expect_library_name {
